@@ -291,6 +291,14 @@ pub fn run_history(tape: &mut Tape, hp: &HistParams, detail: bool) -> HistReport
         policies.push(pol);
     }
     scenario.push(format!("trigger policies: {:?}", policies));
+    // one history in eight is run by a user who does not own the cached files:
+    // every futimens of the library fails with EPERM.  Lookups still return
+    // what the map predicts; only the read marks become unknowable.
+    let foreign = w.draw(8) == 7;
+    if foreign {
+        w.sim.lock().injector = Some(Box::new(|info, _t| if info.lib && info.kind == K::Futimens { Some(libc::EPERM) } else { None }));
+        scenario.push("foreign owner: every futimens fails with EPERM".to_string());
+    }
     let handles: Vec<Vec<Handle>> = hspecs.iter().map(|hs| hs.iter().map(|s| w.build(s)).collect()).collect();
     let start_now = w.with_fs(|fs| fs.now);
     let ro_before: Vec<_> = ro_roots.iter().map(|r| w.with_fs(|fs| fs.tree(&dirs[*r].path))).collect();
@@ -385,9 +393,17 @@ pub fn run_history(tape: &mut Tape, hp: &HistParams, detail: bool) -> HistReport
             }
         }
         let op = op;
+        // one write in six hands over a source file whose own mtime is ahead of
+        // the clock (a copy with preserved timestamps, a file server whose
+        // clock runs ahead): what the entry carries is the library's stamp
+        if op.is_write() && w.link_from.is_none() && w.draw(6) == 0 {
+            w.src_skew_ns = *[600_000_000_000i64, 7_200_000_000_000, 3_000_000_000][w.draw(3) as usize..].first().unwrap();
+            bump(&mut counters, "probe:future_dated_source");
+        }
         let trace_mark = w.trace_len();
         let res = w.op(p, hi, &handles[p][hi], ki, key, &op);
         w.link_from = None;
+        w.src_skew_ns = 0;
         ops_log.push(res.short());
         sig = mix(sig, hash_str(&format!("{}|{:?}|{}|{}", op.name(), spec_kind(spec), ki, short_out(&res))));
         bump(&mut counters, &format!("op:{}", op.name()));
@@ -577,6 +593,15 @@ pub fn run_history(tape: &mut Tape, hp: &HistParams, detail: bool) -> HistReport
             }
         }
         apply_eps(&mut model, false);
+        if foreign {
+            for m in model.iter_mut() {
+                for f in m.values_mut() {
+                    if f.marked == Some(true) {
+                        f.marked = None;
+                    }
+                }
+            }
+        }
         // an entry evicted right after its own insertion (post-publication
         // maintenance) leaves the re-read of ensure with its private handle
         if let (Some(wd), true) = (wdir, matches!(op, Op::Ensure { .. } | Op::GetOrUpdate { .. })) {
